@@ -25,7 +25,10 @@ def run(ctx):
 
     def mc():
         # 1. exhaustive: every scenario of 3 P-Rep candidates (2 registered), 2 voters, a term of 3 blocks
-        c, _ = consts(maxbase=2, maxev=ctx.pick(1, 2), rates=(1500,), record=False)
+        if ctx.quick():
+            c, _ = consts(maxbase=1, maxev=1, rates=(0, 1500), record=False)
+        else:
+            c, _ = consts(maxbase=2, maxev=2, rates=(1500,), record=False)
         import vlib
         return ctx.model_check("iiss", "MC_Reward", "MC_Reward.cfg", constants=c, coverage=True,
                                timeout=ctx.pick(900, 3000), workers=max(2, vlib.NCPU // 2))
@@ -35,18 +38,23 @@ def run(ctx):
 
     def mc2():
         # 1b. two consecutive terms (carry-over of votes, statuses, pruned records, I-Scores), one base vote, one event per term
-        c, _ = consts(maxbase=1, maxev=1, rates=(1500,), terms=2, record=False)
+        c, _ = consts(maxbase=1, maxev=1, rates=(0, 1500), terms=2, record=False)
         import vlib
         return ctx.model_check("iiss", "MC_Reward", "MC_Reward.cfg", constants=c, coverage=False,
                                timeout=3000, workers=max(2, vlib.NCPU // 2))
 
+    import os
+    diag = bool(os.environ.get("VERIF_COVER") or os.environ.get("VERIF_NO_MC"))   # statement-coverage diagnostic of the replay stage: no exhaustive stages
     jobs = [mc]
     if not ctx.quick():
         jobs.append(mc2)
+    if diag:
+        jobs = [lambda: None]
     n = ctx.pick(400, 4000)
     variants = [
         dict(maxbase=4, maxev=6),
-        dict(maxbase=4, maxev=4, terms=3),
+        dict(maxbase=4, maxev=5, terms=3),
+        dict(maxbase=3, maxev=3, elected=0, rewardw=0, rewardp=431910),
         dict(t=4, elected=1, brnum=0, brden=1, maxbase=4, maxev=6, rewardp=323929, rewardw=0, rates=(0, 10000)),
         dict(npreps=4, basecount=3, voters=("v1", "v2", "v3"), t=4, elected=2, brnum=1, brden=20, amts=(1, 3, 7),
              rates=(0, 1000, 3333), maxbase=6, maxev=5, rewardp=431910, rewardw=86382, minbond=2, terms=2),
@@ -60,15 +68,21 @@ def run(ctx):
     # all scenarios with one base vote and one event (BFS)
     c, g = consts(maxbase=1, maxev=1, rates=(1500,))
     jobs.append(lambda c=c, g=g: gen("bfs", c, g, timeout=900, workers=2))
-    nmc = len(jobs) - len(variants) - 1
+    # all scenarios of two registered P-Reps and one voter with two events in the term (status changes, commission
+    # rate changes, votes), no base votes
+    c2, g2 = consts(npreps=2, basecount=2, voters=("v1",), maxbase=0, maxev=2, rates=(0, 1500), amts=(1,))
+    jobs.append(lambda c=c2, g=g2: gen("bfs2", c, g, timeout=900, workers=2))
+    nmc = len(jobs) - len(variants) - 2
     if ctx.replay:
         jobs = jobs[:nmc]
     with ThreadPoolExecutor(max_workers=len(jobs)) as ex:
         futs = [ex.submit(j) for j in jobs]
         res = [f.result() for f in futs]
     r, groups = res[0], res[nmc:]
-    ctx.check_coverage(r, ["BaseVote", "StartTerm", "Event", "SetStatus", "NextBlock", "Calculate"], allow_zero=("NextTerm",))
-    ctx.exhaustive = True
+    if r is not None:
+        ctx.check_coverage(r, ["BaseVote", "StartTerm", "Event", "SetStatus", "NextBlock", "Calculate"],
+                           allow_zero=("NextTerm", "ClaimIScore", "SetRate"))
+    ctx.exhaustive = r is not None
     cases, seen = [], set()
     for name, g, bs in groups:
         for b in bs:
@@ -92,8 +106,8 @@ def run(ctx):
                     for s in cse["steps"] if s["op"] != "calc"][:14])
     return ctx.finish(
         rule="a scenario = one TLC-generated term: base delegations/bonds, vote and enable/disable events at block "
-             "offsets, reward calculation (all scenarios with one base vote and one event by BFS + random walks over "
-             "five parameter sets, two of them with 2-3 consecutive terms whose votes, statuses and I-Scores carry over); distinct by its vote/event sequence and commission rates; non-trivial if some "
+             "offsets, commission-rate changes and I-Score claims inside the term, reward calculation (all scenarios with one base vote and one event by BFS + random walks over "
+             "six parameter sets (one without elected P-Reps), two of them with 2-3 consecutive terms whose votes, statuses and I-Scores carry over); distinct by its vote/event sequence and commission rates; non-trivial if some "
              "P-Rep earns a reward; every scenario is run through calculator.New end to end and through the "
              "PRepInfo/Voter API, the budget inequalities are evaluated on the real outputs and every output is compared "
              "with the spec's prediction",
